@@ -27,7 +27,7 @@ use std::task::{Poll, Waker};
 
 pub const META: Meta = Meta {
     level: "model_checking",
-    rule: "delivery (E1): write sequences over sizes {0,1,2,MAX-1,MAX,MAX+1,2*MAX+1} (MAX = 64511): quick = every single write (either role writing), every pair over {0,1,MAX-1,MAX,MAX+1} and 2*MAX+1 paired with 1 / MAX on either side (initiator writing); thorough = every single write (either role) and every pair (initiator writing) at bound 2, every pair (responder writing) and every sequence of 3 (initiator writing) at bound 1; x {flush after every write, flush at the end}, over two real noise Outputs produced by a real XX handshake; per configuration every execution with <= bound deviations after the handshake (transport reads/writes cut to 1, 2 or 65537 bytes, injected Pending on read/write/flush, non-round-robin task choice); bound 1 quick; thorough as stated, with a wall-clock cap of 480 s per worker after which remaining configurations drop to bound 1 (reported as a cap). Tamper (E3): a recorded stream of 3 frames (plaintexts of 5, 1, 16 bytes; thorough adds 300): every byte x 8 one-bit flips (quick) / 255 values (thorough), every truncation, in both directions, followed by EOF. Non-trivial = delivery executions with >=1 deviation; every tampered stream.",
+    rule: "delivery (E1): write sequences over sizes {0,1,2,MAX-1,MAX,MAX+1,2*MAX+1} (MAX = 64511): quick = every single write (either role writing), every pair over {0,1,MAX-1,MAX,MAX+1} and 2*MAX+1 paired with 1 / MAX on either side (initiator writing); thorough = every single write (either role) and every pair (initiator writing) at bound 2, every pair (responder writing) and every sequence of 3 (initiator writing) at bound 1; x {flush after every write, flush at the end}, over two real noise Outputs produced by a real XX handshake; per configuration every execution with <= bound deviations after the handshake (transport reads/writes cut to 1, 2 or 65537 bytes, injected Pending on read/write/flush, non-round-robin task choice); bound 1 quick; thorough as stated, with a wall-clock cap of 480 s per worker after which remaining configurations drop to bound 1 (reported as a cap). Tamper (E3): a recorded stream of 3 frames (plaintexts of 5, 1, 16 bytes; thorough adds a 4-frame stream with a 300-byte plaintext, initiator writing): every byte x 8 one-bit flips (quick) / 255 values (thorough), every truncation, in both directions, followed by EOF. Non-trivial = delivery executions with >=1 deviation; every tampered stream.",
     explanation: "Delivery: E1 stateless deviation-bounded DFS over the real Output futures; oracle: the reader obtains exactly the concatenation of the writes and a clean EOF, the reply arrives intact. Tamper: fault enumeration on the recorded ciphertext; oracle: the bytes read are a prefix of the plaintext and, for byte corruption, the read sequence ends in an error (never altered bytes, never a clean EOF).",
     assumptions: &["poll-granularity interleaving on one thread", "chunking deviations start after both handshakes completed (handshake chunking belongs to C16/C14 style checks)", "snow / ring AEAD trusted; manipulations are enumerated, not computational"],
 };
@@ -417,7 +417,7 @@ pub fn run(ctx: &Ctx) -> Outcome {
         // ---- tamper (E3)
         let mut n = 0u64;
         for iw in [true, false] {
-            for big in if ctx.quick() { vec![false] } else { vec![false, true] } {
+            for big in if ctx.quick() || !iw { vec![false] } else { vec![false, true] } {
                 let len: usize = tamper_msgs(big).iter().map(|m| 2 + m.len() + 16).sum();
                 let mut edits = vec![Edit::None];
                 let masks = if ctx.quick() { masks_bits() } else { masks_all() };
